@@ -111,6 +111,8 @@ class Facet:
     steps_thorough: int = 40
     timeout_is_violation: bool = False
     exhaustive: bool = False
+    exhaustive_tiers: tuple = ("quick", "thorough")
+    time_limit: Optional[float] = None
     max_samples: int = 3
 
 
@@ -235,8 +237,10 @@ def _alarm_handler(signum, frame):
     raise CaseTimeout()
 
 
-def run_case(facet: Facet, case, limit=CASE_TIME_LIMIT_S):
+def run_case(facet: Facet, case, limit=None):
     """Run facet.check(case) under the watchdog. Returns info or raises Violation."""
+    if limit is None:
+        limit = facet.time_limit or CASE_TIME_LIMIT_S
     old = signal.signal(signal.SIGALRM, _alarm_handler)
     signal.setitimer(signal.ITIMER_REAL, limit)
     try:
@@ -591,7 +595,7 @@ def run_property(prop: str, tier: str, seed: int, only_facets=None, scale: float
             "shards": len(rs),
             "wall_s_sum": round(sum(r["wall"] for r in rs), 2),
             "violations": len(viol),
-            "exhaustive": bool(facet.exhaustive and not viol),
+            "exhaustive": bool(facet.exhaustive and tier in facet.exhaustive_tiers and not viol),
         }
         total_eval += ev
         all_nontrivial.update(f"{facet.name}:{h}" for h in nt)
@@ -599,7 +603,7 @@ def run_property(prop: str, tier: str, seed: int, only_facets=None, scale: float
         for s in fs:
             samples.append({"facet": facet.name, "case": s})
         rules.append(f"[{facet.name}] {facet.rule}")
-        exhaustive_flags.append(bool(facet.exhaustive))
+        exhaustive_flags.append(bool(facet.exhaustive and tier in facet.exhaustive_tiers))
         if viol:
             # smallest failing case of the facet (by serialised size) becomes the replay
             v = min(viol, key=lambda x: len(canonical(x["case"])))
